@@ -1,12 +1,12 @@
 (* C13: model of goawk's output streams.  Definitions only.
-   Mirrors interp/io.go (getOutputStream, writeOutput, printLine/printArgs,
+   Mirrors interp/io.go (getOutputStream, childWriter, writeOutput, printLine/printArgs,
    flushAll, flushStream, flushWriter, flushOutputAndError, printErrorf,
    closeAll, getInputScannerFile/Pipe), interp/iostream.go (outFileStream,
    outCmdStream, in*Stream, Close, waitExitCode), interp/vm.go (Print, Printf,
    BuiltinClose, BuiltinFflush, BuiltinFflushAll, BuiltinSystem, getline,
    Exit/ExitStatus) and interp/interp.go (executeAll: deferred closeAll, result).
    Outside /repo and modelled from their documented behaviour: bufio.Writer
-   (WriteString, Flush, ReadFrom; sticky error), os/exec (the goroutine that
+   (WriteString, Write, Flush; sticky error), os/exec (the goroutine that
    copies a child's standard output into Config.Output when that is not an
    *os.File; Wait's error precedence), the kernel (a child consumes its
    standard input at once; a file is a byte sequence).
@@ -108,7 +108,7 @@ Definition bw_flush (w : bw) (k : sink) : bw * sink * bool :=
            end
        end.
 
-(* the copy loop of WriteString / ReadFrom, byte by byte: a byte that arrives
+(* the copy loop of WriteString, byte by byte: a byte that arrives
    at a full buffer first flushes it *)
 Fixpoint bw_bytes (cap : nat) (w : bw) (k : sink) (p : bytes) : bw * sink * bool :=
   match p with
@@ -126,15 +126,32 @@ Fixpoint bw_bytes (cap : nat) (w : bw) (k : sink) (p : bytes) : bw * sink * bool
 Definition bw_write_string (cap : nat) (w : bw) (k : sink) (p : bytes) : bw * sink * bool :=
   if bw_err w then (w, k, false) else bw_bytes cap w k p.
 
-(* bufio.Writer.ReadFrom after its entry check, for one chunk of child output
-   ([] = EOF): the data is copied in; a buffer that is then full is flushed
-   at once (top of the loop, or the EOF branch) *)
-Definition bw_read_from (cap : nat) (w : bw) (k : sink) (p : bytes) : bw * sink * bool :=
-  match bw_bytes cap w k p with
-  | (w1, k1, true) =>
-      if (cap <=? length (bw_buf w1))%nat then bw_flush w1 k1 else (w1, k1, true)
-  | r => r
+(* bufio.Writer.Write, which is what os/exec's copying goroutine calls on a
+   bufio.Writer Output for each chunk a child has written (interp/io.go
+   childWriter hides ReadFrom): data that fits is buffered; otherwise the buffer
+   is filled up and flushed, and what still does not fit an empty buffer is
+   written straight to the underlying writer *)
+Definition bw_direct (w : bw) (k : sink) (p : bytes) : bw * sink * bool :=
+  match sink_write k p with
+  | (k', _, true) => (w, k', true)
+  | (k', _, false) => ({| bw_buf := bw_buf w; bw_err := true |}, k', false)
   end.
+Definition bw_write (cap : nat) (w : bw) (k : sink) (p : bytes) : bw * sink * bool :=
+  if bw_err w then (w, k, false)
+  else
+    let avail := (cap - length (bw_buf w))%nat in
+    if (length p <=? avail)%nat then ({| bw_buf := bw_buf w ++ p; bw_err := false |}, k, true)
+    else match bw_buf w with
+         | [] => bw_direct w k p
+         | _ =>
+             match bw_flush {| bw_buf := bw_buf w ++ firstn avail p; bw_err := false |} k with
+             | (w1, k1, true) =>
+                 let p' := skipn avail p in
+                 if (length p' <=? cap)%nat then ({| bw_buf := p'; bw_err := false |}, k1, true)
+                 else bw_direct w1 k1 p'
+             | (w1, k1, false) => (w1, k1, false)
+             end
+         end.
 
 (* buffer of a file or command stream (a bufio.Writer of size cap whose sink
    -- a file, or a pipe to a child that reads everything -- never fails).
@@ -231,33 +248,26 @@ Definition is_osfile (m : omode) : bool := match m with OsFile => true | _ => fa
 (* a command stream whose child may be writing to the shared stdout right now *)
 Definition any_active (o : list (name * ostream)) : bool :=
   existsb (fun e => os_active (snd e)) o.
-(* a live child started by print | cmd: unless Output is an *os.File, os/exec
-   runs a goroutine for it that sits in Output's ReadFrom / Write *)
-Definition any_cmd (o : list (name * ostream)) : bool :=
-  existsb (fun e => match os_kind (snd e) with KCmd => true | KFile => false end) o.
-
 (* the main goroutine is about to use p.output.  Ghost: st_overlap records
    that a child's copying goroutine was alive at that moment (two users of one
    io.Writer); if that child may actually be writing, the outcome is a matter
    of timing (st_unmod). *)
-Definition buf_may_fill (E : env) (s : state) (n : nat) : bool :=
-  match e_mode E with Buf cap => (cap <=? length (bw_buf (st_out s)) + n)%nat | _ => false end.
-
-(* [n] = number of bytes the access is about to add.  While a print | cmd
-   child is alive its copying goroutine may, at any moment between the child's
-   start and Wait (whenever the child's stdout reaches EOF -- at once for
-   "exec cat >> f"), find the buffer exactly full and Flush it itself; an own
-   access during which the buffer is or becomes full therefore races with it:
-   st_unmod. *)
-Definition touch (E : env) (s : state) (n : nat) : state :=
-  let s := if negb (is_osfile (e_mode E)) && any_cmd (st_outs s) then set_overlap s else s in
-  if any_active (st_outs s) || (any_cmd (st_outs s) && buf_may_fill E s n) then set_unmod s else s.
+(* the main goroutine is about to use p.output.  While a print | cmd child
+   that has been given something to write to the shared stdout is alive, the
+   goroutine os/exec runs for it may call Output.Write at any moment: two users
+   of one io.Writer (ghost st_overlap, unless Output is an *os.File, which the
+   child writes to itself), and an order of the two writes that timing decides
+   (st_unmod).  A child that writes nothing never makes that goroutine touch
+   Output (childWriter). *)
+Definition touch (E : env) (s : state) : state :=
+  let s := if negb (is_osfile (e_mode E)) && any_active (st_outs s) then set_overlap s else s in
+  if any_active (st_outs s) then set_unmod s else s.
 
 (* p.output.(flusher).Flush(), when p.output has a Flush method *)
 Definition flush_stdout (E : env) (s : state) : state * bool :=
   match e_mode E with
   | Buf _ =>
-      let s := touch E s 0 in
+      let s := touch E s in
       match bw_flush (st_out s) (st_sink s) with (w, k, ok) => (set_out s w k, ok) end
   | _ => (s, true)
   end.
@@ -288,7 +298,7 @@ Fixpoint write_pieces_direct (k : sink) (ps : list bytes) : sink * bool :=
   end.
 
 Definition write_stdout (E : env) (s : state) (ps : list bytes) : state * bool :=
-  let s := add_log (touch E s (length (concat ps))) (EvWrite WStdout (concat ps)) in
+  let s := add_log (touch E s) (EvWrite WStdout (concat ps)) in
   match e_mode E with
   | Buf cap =>
       match write_pieces_buf cap (st_out s) (st_sink s) ps with (w, k, ok) => (set_out s w k, ok) end
@@ -311,20 +321,14 @@ Definition child_out (E : env) (s : state) (cgfail : bool) (data : bytes) : stat
           match sink_write (st_sink s) data with (k, _, ok) => (set_out s (st_out s) k, ok) end
       | Buf cap =>
           if cgfail then (set_unmod s, false) else
-          (* another print | cmd child is alive: its goroutine may flush a full buffer at any moment *)
-          let s := if any_cmd (st_outs s) && buf_may_fill E s (length data) then set_unmod s else s in
-          match bw_read_from cap (st_out s) (st_sink s) data with (w, k, ok) => (set_out s w k, ok) end
+          (* another child is writing too: the order of the two is a matter of timing *)
+          let s := if any_active (st_outs s) then set_unmod s else s in
+          match bw_write cap (st_out s) (st_sink s) data with (w, k, ok) => (set_out s w k, ok) end
       end
   end.
 
-(* the child's stdout reaches EOF: ReadFrom's EOF branch flushes a buffer that is exactly full *)
-Definition child_eof (E : env) (s : state) (cgfail : bool) : state * bool :=
-  match e_mode E with
-  | Buf cap =>
-      if cgfail then (s, false) else
-      match bw_read_from cap (st_out s) (st_sink s) [] with (w, k, ok) => (set_out s w k, ok) end
-  | _ => (s, negb cgfail)
-  end.
+(* the child's stdout reaches EOF: io.Copy returns; nothing is done to Output *)
+Definition child_eof (E : env) (s : state) (cgfail : bool) : state * bool := (s, negb cgfail).
 
 (* bytes goawk holds back in its own buffer of standard output *)
 Definition stdout_pending (E : env) (s : state) : nat :=
@@ -332,7 +336,7 @@ Definition stdout_pending (E : env) (s : state) : nat :=
 
 (* a process is started with Stdout = p.output (system, print | cmd) or with
    Stdout = a pipe read by goawk (cmd | getline); returns the state and
-   whether os/exec's ReadFrom entry check already failed *)
+   whether the copy of its stdout has already failed (never, at the start) *)
 Definition start_proc (E : env) (s : state) (c : name) : state * bool :=
   let sp := e_spec E c in
   let s := add_log s (EvStart c (stdout_pending E s) (bw_err (st_out s))) in
@@ -340,7 +344,7 @@ Definition start_proc (E : env) (s : state) (c : name) : state * bool :=
            | Some t => add_log (set_fs s (fs_append (st_fs s) t (c_append sp))) (EvChildAppend t (c_append sp))
            | None => s
            end in
-  (s, match e_mode E with Buf _ => bw_err (st_out s) | _ => false end).
+  (s, false).
 
 (* ---- file and command streams ---- *)
 
@@ -591,19 +595,6 @@ Definition getline_file (E : env) (s : state) (n : name) : state * outcome :=
            end
        end.
 
-(* close(cmd) of a command that exits 0 returns -1 instead of 0 iff the
-   goroutine copying its stdout met a write error.  That goroutine checks the
-   writer's error when it starts running and flushes a full buffer when the
-   child's stdout reaches EOF -- two moments anywhere between Start and Wait.
-   If the writer was healthy when the child started and has failed by the time
-   close returns, which of the two goroutines met the failure is a matter of
-   timing: st_unmod. *)
-Definition close_timing (E : env) (n : name) (o : ostream) (s_after : state) : bool :=
-  match os_kind o, c_exit (e_spec E n) with
-  | KCmd, Exited e => (e =? 0) && negb (os_cgfail o) && bw_err (st_out s_after)
-  | _, _ => false
-  end.
-
 Definition step (E : env) (s : state) (o : op) : state * outcome :=
   match o with
   | Print d ps =>
@@ -637,10 +628,8 @@ Definition step (E : env) (s : state) (o : op) : state * outcome :=
           | Some os =>
               match close_ostream E (set_outs s (aremove n (st_outs s))) n os with
               | (s1, code, err) =>
-                  let tm := close_timing E n os s1 in
                   let s1 := add_log s1 (EvClose n false code) in
                   let s1 := if err then print_errorf E s1 else s1 in
-                  let s1 := if tm then set_unmod s1 else s1 in
                   (add_obs s1 (ORet code), Running)
               end
           | None => (add_obs s (ORet (-1)), Running)
